@@ -393,20 +393,25 @@ pub fn memory_check(args: &[String], n: usize, seed: u64, long_lines: bool, many
         let log_bytes = (qs.capacity() * std::mem::size_of::<Quiescence>()) as isize;
         (best.unwrap_or(0) - log_bytes, len, qs.len())
     };
-    // warm up caches (lazily compiled regexes, one set per language met) with the large input
+    // warm up caches (lazily compiled regexes, one set per language met) with a large input
     // itself, so that what a cache retains is not counted as growth with input size
-    let _ = measure(4 * n);
+    let _ = measure(3 * n);
     let (h1, l1, _) = measure(n);
-    let (h4, l4, q4) = measure(4 * n);
-    let growth = h4 - h1;
-    let input_growth = (l4 - l1) as isize;
-    let info = json!({"args": args, "long_lines": long_lines, "many_files": many_files, "wrap_shapes": wrap_shapes, "many_commits": many_commits, "hunks_small": n, "hunks_large": 4 * n, "input_bytes_small": l1, "input_bytes_large": l4, "live_heap_small": h1, "live_heap_large": h4, "quiescence_points_large": q4});
-    if growth > input_growth / 4 {
+    let (h3, l3, _) = measure(3 * n);
+    let (h9, l9, q9) = measure(9 * n);
+    let growth = h9 - h1;
+    let input_growth = (l9 - l1) as isize;
+    // bytes of live heap per added hunk, over both intervals: a buffer that happens to have doubled
+    // its capacity shows up in one interval only, a leak in both
+    let per_hunk_a = (h3 - h1) as f64 / (2 * n) as f64;
+    let per_hunk_b = (h9 - h3) as f64 / (6 * n) as f64;
+    let info = json!({"args": args, "long_lines": long_lines, "many_files": many_files, "wrap_shapes": wrap_shapes, "many_commits": many_commits, "hunks_small": n, "hunks_mid": 3 * n, "hunks_large": 9 * n, "input_bytes_small": l1, "input_bytes_mid": l3, "input_bytes_large": l9, "live_heap_small": h1, "live_heap_mid": h3, "live_heap_large": h9, "heap_bytes_per_added_hunk": [per_hunk_a, per_hunk_b], "quiescence_points_large": q9});
+    if growth > input_growth / 4 || per_hunk_a.min(per_hunk_b) >= 2.0 {
         return (
             Some(Violation::new(
                 "M-memory",
                 "M:heap-grows-with-input",
-                format!("live heap at a quiescence point after an unchanged line grew by {} bytes when the input grew by {} bytes ({} -> {} hunks; long lines: {}; one file per hunk: {}; wrap shapes: {}; one commit per hunk: {}; args {:?})", growth, input_growth, n, 4 * n, long_lines, many_files, wrap_shapes, many_commits, args),
+                format!("live heap at a quiescence point after an unchanged line grows with the input: {} -> {} -> {} bytes for {} -> {} -> {} hunks ({:.1} and {:.1} bytes per added hunk; input grew by {} bytes; long lines: {}; one file per hunk: {}; wrap shapes: {}; one commit per hunk: {}; args {:?})", h1, h3, h9, n, 3 * n, 9 * n, per_hunk_a, per_hunk_b, input_growth, long_lines, many_files, wrap_shapes, many_commits, args),
             )),
             info,
         );
